@@ -88,7 +88,7 @@ def opC05Mapping (j : Json) : Except String Json := do
         ("keys", jarr (es.map fun e => Json.str e.key)),
         ("params", jarr (es.map fun e => Json.str e.param)),
         ("param_list", jarr ((paramListOf cstream es).map Json.str)),
-        ("emit", c05EmitJson (emitCheck es)),
+        ("emit", if emitCheck es == .ok () && !emitIndentOk (!cross) es then jarr [Json.str "indentation"] else c05EmitJson (emitCheck es)),
         ("entries", jarr (es.map fun e =>
           let s := e.slot input
           Json.mkObj [("key", Json.str e.key), ("param", Json.str e.param),
